@@ -98,10 +98,29 @@ def oneFileArchive (root f : FileRec) : Bytes :=
           (f.data ++
             encElem (.goodbye (UInt64.ofNat (16 + (oneFileTable f).length * 24)) (oneFileTable f))))))
 
+/-- when the size recorded for a file is the length of its content, `io.CopyN(w, data, size)`
+    finds enough bytes ... -/
+theorem size_toNat_of_u64len {f : FileRec} (hsz : f.size = u64len f.data)
+    (hdata : f.data.length < 2 ^ 63) : f.size.toNat = f.data.length := by
+  rw [hsz]; exact ofNat_toNat_of_lt (by omega)
+
+theorem not_short_of_u64len {f : FileRec} (hsz : f.size = u64len f.data)
+    (hdata : f.data.length < 2 ^ 63) : ¬ f.data.length < f.size.toNat := by
+  rw [size_toNat_of_u64len hsz hdata]; omega
+
+/-- ... and copies all of the content -/
+theorem take_size_of_u64len {f : FileRec} (hsz : f.size = u64len f.data)
+    (hdata : f.data.length < 2 ^ 63) : f.data.take f.size.toNat = f.data := by
+  rw [size_toNat_of_u64len hsz hdata]; exact List.take_length
+
+/-- (`hsz`, `hdata`: the payload writer copies exactly `f.size` bytes and fails on shorter content,
+    so the encoder's output is `oneFileArchive` only when size and content agree) -/
 theorem tarStream_one_file (root f : FileRec) (hrk : root.kind = .dir) (hrx : root.xattrs = [])
-    (hfk : f.kind = .reg) (hfx : f.xattrs = []) (hpar : f.parent = root.path) :
+    (hfk : f.kind = .reg) (hfx : f.xattrs = []) (hpar : f.parent = root.path)
+    (hsz : f.size = u64len f.data) (hdata : f.data.length < 2 ^ 63) :
     tarStream [root, f] = some (oneFileArchive root f) := by
   simp only [tarStream, tarOne, tarChildren, hrk, hrx, hfk, hfx, hpar, encXattrs,
+    not_short_of_u64len hsz hdata, take_size_of_u64len hsz hdata,
     makeGoodbyeBST_singleton, List.length_cons, List.length_nil, ne_eq, not_true_eq_false,
     ↓reduceIte, List.flatMap_nil, List.append_nil, List.nil_append, List.map_cons, List.map_nil,
     Option.map_some, reduceCtorEq, List.cons_append]
@@ -223,7 +242,7 @@ theorem untar_tar_one_file (root f : FileRec)
     ∃ b, tarStream [root, f] = some b ∧
       untar b = .ok [.dir [dot] ⟨root.uid, root.gid, root.mode, root.mtime, []⟩,
                      .file f.base ⟨f.uid, f.gid, f.mode, f.mtime, []⟩ f.size f.data] :=
-  ⟨oneFileArchive root f, tarStream_one_file root f hrk hrx hfk hfx hpar,
+  ⟨oneFileArchive root f, tarStream_one_file root f hrk hrx hfk hfx hpar hsz hdata,
     untar_one_file_archive root f hname hsz hdata hbase⟩
 
 end Desync
